@@ -1055,7 +1055,7 @@ func gen(w *kit.Out, r *kit.Rand, tier string) {
 	rr := r.Fork()
 	nr := 120
 	if thorough {
-		nr = 1200
+		nr = 900
 	}
 	for c := 0; c < nr; c++ {
 		ps := kit.Pick(rr, partSizes)
@@ -1083,7 +1083,7 @@ func gen(w *kit.Out, r *kit.Rand, tier string) {
 	rm := r.Fork()
 	nm := 40
 	if thorough {
-		nm = 400
+		nm = 300
 	}
 	for c := 0; c < nm; c++ {
 		ps := kit.Pick(rm, partSizes)
